@@ -216,6 +216,10 @@ func (vc *VC) run() {
 		}
 	}
 	for _, e := range fc.Ensures {
+		if e.Assumed {
+			vc.used["assumed clause of "+vc.fnName()+": "+e.Src] = true
+			continue
+		}
 		g, err := penv.evalBool(e.Expr)
 		if err != nil {
 			vc.specError(final, "post:"+e.Label, e, err)
@@ -254,7 +258,7 @@ func (vc *VC) frameObligations(final *State, penv *SpecEnv) {
 		return
 	}
 	fc := vc.fc
-	if fc.ModAll {
+	if fc.ModAll || fc.ModInferred {
 		return
 	}
 	type item struct {
